@@ -33,7 +33,15 @@ MANIFEST = {
             "successor(current); the knowledge covers every account-change host and ACL router once PLANNING has run, preserved by both password-"
             "change updates; ACL index in range), hence it reaches every next execution slot without escape clause; the same holds assuming only what the simulator's "
             "two response construction sites give (do-nothing answered success; a successful remote login carries ip_address/username — tied by C19_gen_resp_wf_sites and "
-            "checked on every real response of the scenario sweep; nothing assumed of failed responses: in PLANNING the looked-back action is always a do-nothing). RandomAgent returns the sampled entry of its action map. "
+            "checked on every real response of the scenario sweep; nothing assumed of failed responses: in PLANNING the looked-back action is always a do-nothing). "
+            "A CONSTRUCTED TAP001 NEVER RAISES either (C19_tap1_validated_never_raises_sim: every draw / response sequence of any length with the repeat_scan draw in range and "
+            "well-shaped scan data (ScanSimOk: {live_hosts: list} or host->protocol->ports, tied to the three NMAP response sites and to every use of the data in TAP001 by "
+            "C19_gen_scan_resp_sites and checked on every real scan response of the sweep); invariant: a scan in progress has a remembered timestamp, all remembered timestamps "
+            "index the history). RandomAgent returns the sampled entry of its action map. "
+            "PeriodicAgent.get_action with _set_next_execution_timestep, ProbabilisticAgent.get_action and the probability-vector construction (ProbabilisticAgent.probabilities) are "
+            "TRANSLATED statement by statement (Gen/AgentsGet.lean: dict subscripts, comprehensions, append loops, values() in insertion order) and proved equal to the model on every "
+            "table / state / draw (C19_gen_prob_vector: the vector is by key for ANY written key order; C19_gen_prob_get_action; C19_gen_periodic_get_action); a vector in written order is "
+            "a refuted theorem and Lean's evaluation of the translated method on all written orders of up to 4 keys yields the counter-model, replayed on the real agent. "
             "The control methods _tap_outcome_handler, _tap_start, _tap_return_handler, _agent_trial_handler and both _progress_kill_chain are TRANSLATED "
             "statement by statement (Gen/AgentsCtl.lean) and proved equal to the model functions on every state (C19_gen_ctl_*: a meaning-preserving "
             "rewrite keeps them). Tie: enums, dispatch order, comparators, defaults, the "
@@ -51,7 +59,7 @@ MANIFEST = {
     "technique": "Lean 4 theorems over executable agent models; models tied by regenerated tables and a differential rig",
     "design_ref": "5/C19",
 }
-MODULES = ["PrimaiteModel.Props.C19", "PrimaiteModel.Props.C19Sched", "PrimaiteModel.Props.C19Run", "PrimaiteModel.Props.C19Params", "PrimaiteModel.Props.C19Sampler", "PrimaiteModel.Props.C19Nodes", "PrimaiteModel.Props.C19More", "PrimaiteModel.Props.C19Live", "PrimaiteModel.Props.C19NoRaise", "PrimaiteModel.Props.C19Wf", "PrimaiteModel.Props.C19Ctl"]
+MODULES = ["PrimaiteModel.Props.C19", "PrimaiteModel.Props.C19Sched", "PrimaiteModel.Props.C19Run", "PrimaiteModel.Props.C19Params", "PrimaiteModel.Props.C19Sampler", "PrimaiteModel.Props.C19Nodes", "PrimaiteModel.Props.C19More", "PrimaiteModel.Props.C19Live", "PrimaiteModel.Props.C19NoRaise", "PrimaiteModel.Props.C19Wf", "PrimaiteModel.Props.C19Ctl", "PrimaiteModel.Props.C19Get", "PrimaiteModel.Props.C19NoRaise1"]
 EXE = "drv_c19"
 KINDS = ["periodic", "prob", "probn", "tap1", "tap3", "rand"]
 
@@ -111,18 +119,68 @@ def _gen_obligations(ctx: Ctx):
         want = "[" + ", ".join(f'("{m.name}", {int(m.value)})' for m in enum) + "]"
         ctx.oblige(f"gen-crosscheck:{name}", "extractor", f"def {name} : List (String × Int) := {want}" in text,
                    f"ast table differs from list({enum.__name__})")
-    ctx.oblige("gen-crosscheck:probVectorOrder", "extractor",
-               ('"byKey"' if rig.vector_order_of_impl() == "key" else '"insertion"') in
-               next(l for l in text.splitlines() if l.startswith("def probVectorOrder")),
-               "extractor and run-time probe disagree about the order of the probability vector")
+    pin = next(l for l in text.splitlines() if l.startswith("def probVectorOrder"))
+    if '"seeTranslation"' in pin:      # not one of the pinned shapes: ask the TRANSLATED method (evaluated by Lean) about the probe table
+        got = run_driver(EXE, ["gen-vector 1:1,0:3"])[0].split()[0]
+        ok = got == ("3,1" if rig.vector_order_of_impl() == "key" else "1,3")
+    else:
+        ok = ('"byKey"' if rig.vector_order_of_impl() == "key" else '"insertion"') in pin
+    ctx.oblige("gen-crosscheck:probVectorOrder", "extractor", ok,
+               "extractor / translation and run-time probe disagree about the order of the probability vector")
+
+
+def _vector_counter_models(ctx: Ctx):
+    """Counter-model search for `C19_gen_prob_vector` (the TRANSLATED `ProbabilisticAgent.probabilities` = the by-key vector
+    on every table): every covered table with up to 4 keys in EVERY written order (weights 1,2,4,8 by key: all distinct) is
+    evaluated by Lean through the driver.  A table on which the translated method differs from the model is turned into a
+    concrete case for the REAL agent (the key whose vector entry is wrong gets probability 0) and replayed."""
+    import itertools
+    tables = [[(k, 1 << k) for k in perm] for n in range(1, 5) for perm in itertools.permutations(range(n))]
+    lines = ["gen-vector " + ",".join(f"{k}:{w}" for k, w in tb) for tb in tables]
+    outs = run_driver(EXE, lines)
+    ctx.count(f"gen-vector: tables enumerated (all written orders of 1..4 keys)", len(tables))
+    bad = [(tb, o) for tb, o in zip(tables, outs) if len(o.split()) != 2 or o.split()[0] != o.split()[1]]
+    ctx.oblige("gen-search:C19_gen_prob_vector has no counter-model among all written orders of up to 4 keys", "correspondence",
+               not bad, f"{len(bad)} of {len(tables)} tables; first: {bad[0] if bad else None}")
+    if not bad:
+        return
+    tb, o = min(bad, key=lambda x: len(x[0]))
+    got, want = o.split()
+    n = len(tb)
+    wrong = next((i for i, (g, w) in enumerate(zip(got.split(","), want.split(","))) if g != w), 0) if "raised" not in o else 0
+    # the same written order; the key whose entry is wrong is configured with probability 0, the others share 1
+    den = 1 << max(n - 1, 1).bit_length()
+    rest = [k for k, _ in tb if k != wrong]
+    ws = {wrong: 0, **{k: den // max(len(rest), 1) for k in rest}}
+    ws[rest[0]] += den - sum(ws.values())
+    for seed in range(1, 9):
+        case = {"agent": "prob", "table": [[k, ws[k]] for k, _ in tb], "den": den, "n_actions": n, "draws": 24, "seed": seed}
+        ok, a, b, i, lines2, problems = _diff_case(case)
+        if _oracle_prob(case, a) or not ok:
+            ctx.violation({"kind": "gen-counter-model", "agent": "probabilistic-agent", "what": "probability-vector-not-by-key",
+                           "keys_in_order": False},
+                          f"counter-model of C19_gen_prob_vector: for the table written {dict(tb)} the translated probabilities gives "
+                          f"[{got}], by key it is [{want}]; on the real agent with {dict(case['table'])} (denominator {den}) action "
+                          f"{wrong} (configured probability 0) is selected: {a[:8]}",
+                          {"case": case, "impl": a, "model": b, "from": "gen-vector counter-model"})
+            return
+    ctx.oblige("gen-search:counter-model reproduced on the real agent", "correspondence", False,
+               f"table {tb}: translated [{got}] vs by key [{want}], but the real agent did not select a zero-probability action in 8 seeds")
 
 
 def run(ctx: Ctx):
     with lean_lock():
         ctx.extract("Agents", x_agents.emit)
         ctx.extract("AgentsCtl", x_ctl.emit)
+        if ctx.extract("AgentsGet", x_ctl.emit_get):
+            import re
+            from harness.lib.core import GEN
+            m = re.search(r"def untranslated : List \(String × String\) := \[(.*)\]", (GEN / "AgentsGet.lean").read_text())
+            for part, why in re.findall(r'\("([^"]*)", "([^"]*)"\)', m.group(1) if m else ""):
+                ctx.oblige(f"extract:AgentsGet:{part}", "extractor", False, why)
         ctx.prove(MODULES, exes=[EXE], clean=False, leanchecker=ctx.thorough)
     _gen_obligations(ctx)
+    _vector_counter_models(ctx)
     ctx.cov["rule"] = ("cases = (agent kind in {periodic, data-manipulation, probabilistic, TAP001, TAP003, random}, settings, prescribed draws, "
                        "synthetic response sequence); a case is non-trivial when the agent acts at least twice (periodic), selects an "
                        "action from a table with a zero entry (probabilistic), or leaves the first kill-chain stage / fails / raises "
@@ -187,6 +245,15 @@ def run(ctx: Ctx):
             if j >= 1:
                 ctx.violation({"kind": "oracle", "agent": "tap3", "what": "validated-agent-raised"},
                               f"TAP003 ({name}) accepted its settings, got only well-formed responses and raised in step {j - 1}",
+                              {"case": _truncate(case, j), "from": name})
+        # the same for TAP001, licensed by C19_tap1_validated_never_raises_sim: the constructor accepted the settings, the scan draws
+        # are in range and every scan answer is well shaped (the rig builds `{"live_hosts": [...]}` / host -> protocol -> ports)
+        if kind == "tap1" and impl and impl[0].startswith("ok") and all(st["dScan"] < max(case["nAddr"], 1) for st in case["steps"]):
+            ctx.count("tap1:constructed cases with ScanSimOk responses (no-raise oracle applies)")
+            j = next((j for j, l in enumerate(impl) if l == "raised"), -1)
+            if j >= 1:
+                ctx.violation({"kind": "oracle", "agent": "tap1", "what": "validated-agent-raised"},
+                              f"TAP001 ({name}) was constructed, got only well-shaped scan responses and raised in step {j - 1}",
                               {"case": _truncate(case, j), "from": name})
         # property oracle evaluated on the implementation alone
         if kind in ("prob", "probn"):
